@@ -12,7 +12,6 @@ FLOW = {"name": "flow", "pkg": "pkg/verifflow", "harness": "flow", "run": "^Test
         "shards": 16, "shards_thorough": 16}
 
 CHECKS = {
-    "PROC": {"parts": [FLOW]},
     "C01": {"parts": [FLOW]},
     "C02": {"parts": [FLOW]},
     "C03": {"parts": [FLOW]},
@@ -31,11 +30,6 @@ CHECKS = {
     "C08": {"rule": "input enumeration: batch size <=3 x per-record result kinds {pass, filter, error, split2, short-once} at stage 1 x {pass, filter, error} at stage 2 x 1-2 destinations x every single rejected piece; one default-schedule execution of the real full stack per input, compared with a reference interpreter",
             "parts": [{"name": "accounting", "pkg": "pkg/verifflow", "harness": "flow", "run": "^TestVerifC08$", "instrument": True, "shards": 16, "shards_thorough": 16}]},
     "C05": {"parts": [FLOW]},
-    "SMOKE": {
-        "parts": [
-            {"name": "smoke", "pkg": "pkg/verifflow", "harness": "flow", "run": "^TestVerifFlow$", "instrument": True, "shards": 4},
-        ],
-    },
     "C14": {
         "rule": "explicit-state BFS: state = API operation history on fresh real orchestrator+services; alphabet = create/update/delete/start/stop of pipelines, connectors, processors with valid and invalid arguments, and for every call the variant where its k-th store write/commit fails (every k); distinct = canonical dump (ids renamed by creation order, timestamps dropped)",
         "parts": [
